@@ -2,6 +2,7 @@
 From Coq Require Import List NArith ZArith Bool Strings.Byte Strings.String.
 Import ListNotations.
 Require Import Params Iauth Mon01.
+Require Withdraw.
 Local Open Scope list_scope.
 
 (* For every configuration, every starting tables and every finite history of tokenised input lines, the executable monitor
@@ -16,3 +17,12 @@ Print Assumptions verdict_once_then_silence.
 Theorem trace_is_the_run : forall c s0 evs, run_out c s0 (map (fun e => Ev (fst e) (snd e)) evs) = map snd (trace c s0 evs).
 Proof. exact run_out_trace. Qed.
 Print Assumptions trace_is_the_run.
+
+(* The monitor withdraws an id at the server's D / T line BEFORE it judges what that very line makes the model print (mon_step),
+   so a verdict or query "in the step of the withdrawal" is rejected like any later one.  Separately: such a line prints nothing
+   at all, in every state, and afterwards the id is not in the table. *)
+Theorem withdrawal_is_silent_and_final : forall c s id argv,
+  withdraws argv = true -> NoDupIds (reqs s) ->
+  snd (step c s id argv) = [] /\ lookup id (reqs (fst (step c s id argv))) = None.
+Proof. exact Withdraw.withdrawal_is_silent_and_final. Qed.
+Print Assumptions withdrawal_is_silent_and_final.
